@@ -22,6 +22,8 @@ PY_STMTS = [
     "type X[T: int, *Ts, **P] = list[T]\n", "def f[T](x: T) -> T: return x\n", "class C[T](B[T]): pass\n",
     "x = (\n  1,\n  2,\n)\n", "if a: b; c\n", "x = 1 # c\n", "def f(*a: *b): pass\n", "() = x\n", "[a, *b] = c\n", "del (a), [b]\n",
     "x = a if b else (lambda: c)()\n", "print(*a, sep='')\n", "x = not a\n", "x = await_ + 1\n", "raise E from e\n", "nonlocal_ = 1\n",
+    "(a.b) = 1\n", "(a[0]) = 1\n", "del (a.b), (c[0])\n", "*a.b, c = x\n", "for *a[0], c in x: pass\n", "x = (a[i]) * 2\n", "(a[i.j]).foo()\n",
+    "[a.b, (c[d], e)] = f\n", "with a as (b.c, d[0]): pass\n", "x = [(y := f(i)) for i in z]\n", "def f(a, b=1, /, c=2, *, d=3, **e): pass\n",
     "x = ...\n", "x = None is True\n", "for x in *a, b: pass\n", "x = [*a, *b]\n", "x = a[b][c].d\n", "x = (a, )\n", "x = a,\n",
 ]
 
